@@ -244,6 +244,21 @@ def run(rep, tier, seed, model_ok=True, effort=1):
                 rep.violation("--dry exits 0 but the real run with the same arguments fails (committing is off, the tree has uncommitted changes)", input=inp, **{"class": "dry-ok-real-fails"})
             elif c_dry == 0 and b"ver = 1.2.4" not in after.get("a.txt", b""):
                 rep.violation("the real run did not write what --dry announced", input=inp, **{"class": "dry-real-differ"})
+    # a configured file that is untracked AND ignored by git (a generated file): the working tree is clean for git; when --dry exits 0 the real
+    # committing run does too
+    prj = project.TempProject("MAJOR.MINOR.PATCH", "1.2.3", files={"a.txt": ["ver = {version}"], "build_info.txt": ["build of {version}"]},
+                              contents={"a.txt": "ver = 1.2.3\n", ".gitignore": "build_info.txt\n"}, commit=True, tag=False, push=False, vcs="git")
+    with prj:
+        open(prj.path("build_info.txt"), "w").write("build of 1.2.3\n")
+        c_dry, o_dry, l_dry, _ = prj.run(impl, ["update", "--no-fetch", "--patch", "--dry"])
+        c_real, o_real, l_real, _ = prj.run(impl, ["update", "--no-fetch", "--patch"])
+        after = prj.snapshot()
+    rep.case(("gitignored-configured-file",), nontrivial=c_dry == 0)
+    inp = dict(version_pattern="MAJOR.MINOR.PATCH", layout="build_info.txt configured, untracked and listed in .gitignore", dry_exit=c_dry, real_exit=c_real, logs=l_real[-3:])
+    if c_dry == 0 and c_real != 0:
+        rep.violation("--dry exits 0 but the real run with the same arguments fails (a configured file is ignored by git)", input=inp, **{"class": "dry-ok-real-fails"})
+    elif c_dry == 0 and (b"1.2.4" not in after.get("build_info.txt", b"") or b"1.2.4" not in after.get("a.txt", b"")):
+        rep.violation("the real run did not write what --dry announced", input=inp, **{"class": "dry-real-differ"})
     # a configured file that is not valid UTF-8: whatever --dry says, the real run agrees (same exit status; when both succeed the real file is the
     # dry diff applied, which the stream above checks for UTF-8 files)
     for vp, cur, args_ in (("MAJOR.MINOR.PATCH", "1.2.3", ["--patch"]), ("{semver}", "1.2.3", ["--patch"])):
